@@ -242,7 +242,7 @@ func vNameStartByte(c byte) bool {
 //@   requires it != nil
 //@   modifies it.index
 //@   ensures old(it.index) <= it.index
-//@   ensures result != nil ==> old(it.index) < it.index
+//@   ensures result != nil ==> old(it.index) < it.index && result == it.tokens[it.index-1]
 //@   loop 1 invariant old(it.index) <= it.index && it.index <= len(it.tokens)
 //@   loop 1 decreases len(it.tokens) - it.index
 
@@ -407,7 +407,9 @@ func vStop(t Token, nested bool) bool {
 //@   requires forall(j, 0, len(tokens), tokens[j] != nil)
 //@   ensures forall(j, 0, len(result), result[j] != nil)
 //@   ensures len(result) <= len(tokens)
+//@   ensures[subset] forall(j, 0, len(result), exists(k, 0, len(tokens), result[j] == tokens[k]))
 //@   loop 1 invariant fresh(out) && forall(j, 0, len(out), out[j] != nil) && len(out) <= rangeindex + 1 && rangeindex < len(tokens)
+//@   loop 1 invariant[subset] forall(j, 0, len(out), exists(k, 0, rangeindex + 1, out[j] == tokens[k]))
 //@   loop 1 decreases len(tokens) - rangeindex
 
 //@ func SplitOnComma
@@ -757,3 +759,61 @@ func vTokenizable(t Token) bool {
 
 //@ bounded vRoundTripPairs every single token and every ordered pair of a pool of ~170 tricky tokens (identifiers with digits, dashes, escapes, exponent-like units, quotes, non-printables, all delimiters) round-trips through Serialize and Tokenize
 //@   props C20
+
+// ---- <An+B> microsyntax (nth.go), C07: ParseNth never panics ----
+
+// VNthTok: the token-level facts ParseNth relies on; the tokenizer never produces an
+// identifier or a number with an empty representation (assumed of the callers' input).
+func VNthTok(t Token) bool {
+	switch x := t.(type) {
+	case Ident:
+		return x.Value != ""
+	case Number:
+		return x.Value != ""
+	}
+	return true
+}
+
+//@ func ParseNth
+//@   props C07 C12
+//@   nopanic
+//@   modifies nothing
+//@   requires forall(j, 0, len(input), VNthTok(input[j]))
+//@   ensures result != nil ==> fresh(result)
+
+//@ func matchInt
+//@   props C07
+//@   nopanic
+//@   modifies nothing
+//@   unclaimed index@1 "nDashDigitRe has exactly one capture group, so a non-empty match has two entries (regexp.FindStringSubmatch contract: 1+NumSubexp entries)"
+
+//@ func parseB
+//@   props C07
+//@   nopanic
+//@   requires tokens != nil && forall(j, 0, len(tokens.tokens), VNthTok(tokens.tokens[j]))
+//@   modifies tokens.index
+//@   ensures result != nil ==> fresh(result)
+
+//@ func parseSignlessB
+//@   props C07
+//@   nopanic
+//@   requires tokens != nil && forall(j, 0, len(tokens.tokens), VNthTok(tokens.tokens[j]))
+//@   modifies tokens.index
+//@   ensures result != nil ==> fresh(result)
+
+//@ func parseEnd
+//@   props C07
+//@   nopanic
+//@   requires tokens != nil
+//@   modifies tokens.index
+//@   ensures result != nil ==> fresh(result)
+
+//@ func (numberVal).IsInt
+//@   props C06 C07
+//@   nopanic
+//@   inline
+
+//@ func (numberVal).Int
+//@   props C06 C07
+//@   nopanic
+//@   inline
